@@ -491,7 +491,7 @@ class Engine:
             return VKind(getattr(so, 'K_' + name))
         if name in ('forall', 'exists', 'implies', 'old', 'N', 'P', 'iff',
                     'markstr', 'contains', 'startswith', 'endswith', 'ite',
-                    'GEN_MARK', 'empty_nodes', 'empty_pairs', 'empty_strs',
+                    'GEN_MARK', 'empty_nodes', 'empty_pairs', 'empty_strs', 'in_strs', 'strs_remove',
                     'seq_update',
                     'is_node', 'TY', 'typeof', 'pv', 'int_dom', 'float_dom',
                     'int_of_str', 'float_of_str', 'str_of_int',
@@ -851,6 +851,10 @@ class Engine:
             k, t = self.elem_term(x, st)
             if k == container.elem:
                 return z3.Contains(container.t, z3.Unit(t))
+        if isinstance(container, VSetStr) and isinstance(x, VNodeValue):
+            n = self.node_term(x.node, st)
+            return z3.And(nfield(n, 'kind') == so.K_SCALAR,
+                          z3.Select(container.t, nfield(n, 'val')))
         if isinstance(container, VSetStr) and isinstance(x, VStr):
             return z3.Select(container.t, x.t)
         if isinstance(container, VSetStr) and isinstance(x, VPV):
@@ -1135,6 +1139,23 @@ class Engine:
 
     def e_Call(self, e, st):
         return self.models.call(self, e, st)
+
+    def e_Yield(self, e, st):
+        """generator functions are executed straight through (DESIGN 2.4):
+        the yielded values are recorded; PyYAML's two-phase driver resumes
+        the generator before construct_document returns (E-CONSTRUCT)"""
+        if e.value is None:
+            st.notes.append(('yield', NONE))
+            return [(st, NONE)]
+        out = []
+        for s, v in self.eval(e.value, st):
+            if not isinstance(v, Raise):
+                s.notes.append(('yield', v))
+                s.env['__yielded__'] = v
+                out.append((s, NONE))
+            else:
+                out.append((s, v))
+        return out
 
     def e_Starred(self, e, st):
         raise Unsupported('starred expression', e)
